@@ -36,7 +36,13 @@ type Reg struct {
 	// caller's before/after projection comparison decides whether anything observable changed.
 	FalseIsFailure bool
 	CloseErrIDs    map[string]bool // node ids whose objects fail on Close
+	// WrapIDs: node ids registered as decorators. "w": a NodeUnwrapper without Close of its own around
+	// the Closer (closing the node = closing what Unwrap returns); "cw": a decorator with a Close of its
+	// own around another Closer "~id" (closing the node = the decorator's Close; the wrapped object is
+	// the decorator's business and must not be closed by the Broker).
+	WrapIDs map[string]string
 	sends          int
+	kindOverride   *el.NodeType
 }
 
 type MNode struct {
@@ -116,10 +122,21 @@ func (r *Reg) RegisterNode(id, policy string) string { return r.registerNode(id,
 // if there is none): a re-registration that changes nothing but possibly the policy.
 func (r *Reg) RegisterNodeSame(id, policy string) string { return r.registerNode(id, policy, true) }
 
+// RegisterNodeAs registers a fresh object of another node type than the id usually has: pipelines
+// registered afterwards are judged by the type the id has NOW.
+func (r *Reg) RegisterNodeAs(id, policy string, kind el.NodeType) string {
+	r.kindOverride = &kind
+	defer func() { r.kindOverride = nil }()
+	return r.registerNode(id, policy, false)
+}
+
 func (r *Reg) registerNode(id, policy string, same bool) string {
 	kind, ok := r.Kinds[id]
 	if !ok {
 		kind = el.NodeTypeFilter
+	}
+	if r.kindOverride != nil {
+		kind = *r.kindOverride
 	}
 	n := NewNode(r.Log, id, kind, Pass, nil)
 	if kind == el.NodeTypeSink {
@@ -132,7 +149,16 @@ func (r *Reg) registerNode(id, policy string, same bool) string {
 		n = m.Obj
 	}
 	closesBefore := r.closes()
-	err := r.B.RegisterNode(el.NodeID(id), n.AsNode(), polOpt(policy, true)...)
+	val := n.AsNode()
+	var decoy *Node
+	switch r.WrapIDs[id] {
+	case "w":
+		val = Wrapper{Node: n, Inner: CNode{n}}
+	case "cw":
+		decoy = NewNode(r.Log, "~"+id, kind, Pass, nil)
+		val = CWrapper{CNode: CNode{n}, Inner: CNode{decoy}}
+	}
+	err := r.B.RegisterNode(el.NodeID(id), val, polOpt(policy, true)...)
 	r.LastFailed = err != nil
 	// re-registering a node id affects only pipelines registered afterwards: an object that a registered
 	// pipeline still uses must not be closed by it (what happens to an object nothing uses is not judged)
@@ -142,6 +168,9 @@ func (r *Reg) registerNode(id, policy string, same bool) string {
 				return fmt.Sprintf("RegisterNode(%q) closed %s, which the registered pipeline %s/%s still uses", id, r.NameOf(o), p.Type, p.ID)
 			}
 		}
+	}
+	if n.Closes != closesBefore[n] {
+		return fmt.Sprintf("RegisterNode(%q) closed the very object it was given to register (%d -> %d closes)", id, closesBefore[n], n.Closes)
 	}
 	wantErr := id == "" || !validPolicy(policy)
 	if m, exists := r.MNodes[id]; exists && m.Policy == "deny" {
@@ -153,6 +182,9 @@ func (r *Reg) registerNode(id, policy string, same bool) string {
 	if err == nil {
 		if m, exists := r.MNodes[id]; !exists || m.Obj != n {
 			r.objs[id] = append(r.objs[id], n)
+			if decoy != nil {
+				r.objs["~"+id] = append(r.objs["~"+id], decoy)
+			}
 		}
 		pol := effectivePolicy(policy)
 		if pol == "" {
@@ -467,17 +499,28 @@ func (r *Reg) Key() string {
 func (r *Reg) ModelKey() string {
 	var parts []string
 	for id, m := range r.MNodes {
-		parts = append(parts, fmt.Sprintf("N %s=%s pol=%s", id, r.nameOf(m.Obj), m.Policy))
+		parts = append(parts, fmt.Sprintf("N %s=%s%s pol=%s", id, r.nameOf(m.Obj), kindMark(r, m.Obj), m.Policy))
 	}
 	for k, p := range r.MPipes {
 		var os []string
 		for _, o := range p.Objs {
-			os = append(os, r.nameOf(o))
+			os = append(os, r.nameOf(o)+kindMark(r, o))
 		}
 		parts = append(parts, fmt.Sprintf("P %s %v %v pol=%s", k, p.IDs, os, p.Policy))
 	}
 	sort.Strings(parts)
 	return strings.Join(parts, ";")
+}
+
+// kindMark: an object whose node type is not the one its id usually has (RegisterNodeAs) is a different state.
+func kindMark(r *Reg, o *Node) string {
+	if k, ok := r.Kinds[o.Name]; ok && k == o.Typ {
+		return ""
+	}
+	if _, ok := r.Kinds[o.Name]; !ok && o.Typ == el.NodeTypeFilter {
+		return ""
+	}
+	return ":" + TypeLetter(o.Typ)
 }
 
 // Projection is C05's observable projection of the registry, taken from the
